@@ -52,6 +52,12 @@ Example C14_nonvacuous :
   /\ c14_case (0, 2, 0, 0) = (0, 96) /\ MAX_REQUEST <= SEND_BUFFER_SIZE.
 Proof. vm_compute. repeat split; discriminate. Qed.
 
+(* census of the panic sites the model accounts for on the poll-building path (regenerated from the
+   sources on every run): one `expect` on serialize in handle_timer; the reference-id request of the
+   NTPv5 poll has a payload of BLOOM_CHUNK_SIZE bytes, a multiple of 4 (ReferenceIdRequest::serialize asserts it) *)
+Example C14_panic_site_census : TIMER_EXPECT_SITES = 1 /\ BLOOM_CHUNK_SIZE mod 4 = 0 /\ SEND_BUFFER_SIZE_NEW = SEND_BUFFER_SIZE.
+Proof. repeat split; reflexivity. Qed.
+
 Print Assumptions C14_total.
 Print Assumptions C14_fits.
 Print Assumptions C14_run_total.
